@@ -47,6 +47,7 @@ from .mir import parse as P
 from .mir import structs
 from .mir.interp import Adt, Cell, Ctx, Explorer, Int, Opaque, Panic, Ref, Slice, Tup, VecV, set_path
 from .mir.models_lex import MODELS_LEX, LexInterp, is_lazy, lazy_vec
+from .mir.models_parse import MODELS_PARSE
 from .mir.models_text import MODELS_TEXT
 from .mir.runner import run_harnesses
 
@@ -126,10 +127,15 @@ class Layout:
         return self.result.index(name)
 
 
-def make_interp(par, lay):
-    it = LexInterp(par, MODELS)
+def make_interp(par, lay, parser=False):
+    it = LexInterp(par, (MODELS_PARSE + MODELS) if parser else MODELS)
     it.enum_discr["TokenKind"] = lay.token
     it.enum_discr["ParseError"] = lay.perr
+    if parser:
+        for f in ("parser.rs", "green.rs"):
+            path = os.path.join(common.REPO, "dora-parser/src", f)
+            for en in re.findall(r"\benum\s+(\w+)", structs._strip_comments(open(path).read())):
+                it.enum_discr[en] = structs.enum_discriminants(path, en)
     kw = par.find("keywords_in_map")
     cache = {}
 
@@ -680,6 +686,95 @@ def lines_body(par, lay, pid, L):
     return body
 
 
+def unbox(v):
+    """Arc<T> / Box<T> / &T -> T"""
+    while True:
+        if isinstance(v, Opaque) and v.what == "box":
+            v = v.payload
+        elif isinstance(v, Ref):
+            v = M.deref(v)
+        else:
+            return v
+
+
+def field(v, name):
+    if not (isinstance(v, Tup) and v.fnames and name in v.fnames):
+        raise Inconclusive("value %r has no field %s" % (v, name))
+    return v.fields[v.fnames.index(name)]
+
+
+def green_walk(node, dump, toks, conds):
+    """pre-order walk of a GreenNode value: dump entries, token byte elements in order, length conditions"""
+    node = unbox(node)
+    kind, children, tl = field(node, "syntax_kind"), field(node, "children"), field(node, "text_length")
+    total = bv(0)
+    my = len(dump)
+    dump.append(None)
+    for c in children.elems:
+        if not (isinstance(c, Adt) and c.variant in ("Token", "Node")):
+            raise Inconclusive("green element %r" % (c,))
+        if c.variant == "Token":
+            t = unbox(c.fields[0])
+            text = field(t, "text")
+            dump.append("T:%s:%d" % (token_name(field(t, "kind")), len(text.elems)))
+            toks.extend(text.elems)
+            total = total + bv(len(text.elems))
+        else:
+            total = total + green_walk(c.fields[0], dump, toks, conds)
+    conds.append(tl.t == total)
+    c = conc_or_none(tl.t)
+    dump[my] = "N:%s:%s" % (token_name(kind), c if c is not None else "?")
+    return tl.t
+
+
+def parse_body(par, lay, pid, L):
+    it = make_interp(par, lay, parser=True)
+
+    def body(ctx, out):
+        ctx.ex.max_steps = 4 * STEP_BOUND
+        spec = [None] * L
+        bs, inputs = text_value(ctx, spec)
+        A = Asserter(pid, out, ctx, inputs, {"family": "parse", "label": "parse/L=%d" % L, "spec": spec})
+        try:
+            p = it.call(ctx, "Parser::from_string", [Slice(bs, "str")])
+            r = it.call(ctx, "Parser::parse", [p])
+        except Panic as e:
+            A.violation("both", "parse-panic", "Parser::from_string(text).parse() panics: %s (%s)" % (e.msg, e.where))
+            stats(out, it)
+            return
+        except Inconclusive as e:
+            if "step bound exceeded" not in str(e):
+                raise
+            A.violation("both", "parse-no-termination", "the parser does not return within %d MIR blocks on a text of %d bytes (%s)" % (4 * STEP_BOUND, L, e))
+            stats(out, it)
+            return
+        if not (isinstance(r, Tup) and len(r.fields) == 2 and isinstance(r.fields[1], VecV)):
+            raise Inconclusive("Parser::parse returned %r" % (r,))
+        payload = unbox(unbox(r.fields[0]).fields[0])
+        root = field(payload, "root")
+        errs = [error_parts(e) for e in r.fields[1].elems]
+        check_errors(A, errs, L, "parser")
+        dump, toks, conds = [], [], []
+        rl = green_walk(root, dump, toks, conds)
+        A.require("C16", rl == bv(L), "green-root-length", "the length of the green root is not the length of the text")
+        A.require("C16", z3.And(*conds), "green-node-length", "the length of a green node is not the sum of its children's")
+        same = len(toks) == L and all(x is y for x, y in zip(toks, bs))
+        A.require("C16", z3.BoolVal(same), "green-text", "the token texts of the green tree, concatenated in order, do not reproduce the text byte for byte")
+        out.seen("parse-tree-checked")
+        for d in dump:
+            if d.startswith("N:"):
+                out.seen("node:" + d.split(":")[1])
+        if errs:
+            out.seen("parse-with-errors")
+        else:
+            out.seen("parse-without-errors")
+        if len(out.samples) < 2:
+            out.samples.append({"tree": dump, "errors": [(v, conc_or_none(a), conc_or_none(b)) for v, _, a, b in errs], "decisions": len(ctx.trace)})
+        stats(out, it)
+        out.outcome("ok")
+    return body
+
+
 OBLIGATIONS = {
     "C06": {
         "whole": ["no panic/unwrap/expect/index/overflow assertion reachable in lex", "every token consumes >= 1 byte; tokens <= L + 1 (termination)",
@@ -690,6 +785,8 @@ OBLIGATIONS = {
                  "cursor advances (>= 1 byte)", "cursor <= L", "new cursor is a char boundary (precondition of the next step)",
                  "every error span inside [0, L]", "INV re-established"],
         "eof": ["is_eof holds at cursor == L"],
+        "parse": ["no panic reachable in Parser::from_string(text).parse() (lexer, recursive descent with error recovery, event list, build_tree, File::new)",
+                  "every error span (lexer and parser) inside [0, L]"],
         "lines": ["no panic in compute_line_starts", "no panic in compute_line_column for every offset 0..L", "no panic in get_line_content for every line 0..lines+1"],
     },
     "C16": {
@@ -700,6 +797,8 @@ OBLIGATIONS = {
         "step": ["the step returns (no panic)", "is_eof false in front of the end", "offset() == cursor (recorded start)", "cursor advances", "cursor <= L",
                  "new cursor is a char boundary", "every error span inside [0, L]", "token kind < EOF", "INV re-established"],
         "eof": ["is_eof holds at cursor == L (the last token ends at L)"],
+        "parse": ["the parser returns a tree (no panic)", "length of the green root == L", "every green node's length == sum of its children's",
+                  "token texts of the green tree concatenated in order == the text, byte for byte", "every error span (lexer and parser) inside [0, L]"],
         "lines": ["line table == [0] + ends of LF / CRLF / lone CR, strictly increasing", "line_starts[line-1] + column - 1 == offset, offset inside that line, for every offset 0..L",
                   "get_line_content(k) == text[line_starts[k] .. line_starts[k+1]]; empty beyond; lines add up to the text", "no panic"],
     },
@@ -805,6 +904,44 @@ def judge_tokens(text, res, pid):
     return bad
 
 
+def judge_parse(text, res, pid):
+    L = len(text)
+    if "hang" in res:
+        return ["the parser does not terminate: " + res["hang"]]
+    if "panic" in res:
+        return ["Parser::parse panics: " + res["panic"]]
+    if "root_length" not in res:
+        return []
+    bad = []
+    for e in (res.get("errors") or "").split(";"):
+        m = re.fullmatch(r"([\w:]+)@(\d+)\+(\d+)", e) if e else None
+        if m and int(m.group(2)) + int(m.group(3)) > L:
+            bad.append("error %s has the span [%s, +%s) in a text of %d bytes" % (m.group(1), m.group(2), m.group(3), L))
+    if pid == "C16":
+        if int(res["root_length"]) != L:
+            bad.append("green root has length %s for %d bytes" % (res["root_length"], L))
+        if res.get("roundtrip") != "1":
+            bad.append("green root .to_string() differs from the text")
+        stack = []        # (declared length, accumulated) per open node; pre-order dump with lengths lets us re-add
+        ents = [x.split(":") for x in res.get("tree", "").split(",") if x]
+        # verify node length == sum of children by a recursive descent over the pre-order list
+        def walk(i):
+            kind, nm, ln = ents[i]
+            ln = int(ln)
+            if kind == "T":
+                return i + 1, ln
+            j, tot = i + 1, 0
+            while j < len(ents) and tot < ln:
+                j, x = walk(j)
+                tot += x
+            if tot != ln:
+                bad.append("green node %s has length %d, its children add up to %d" % (nm, ln, tot))
+            return j, ln
+        if ents:
+            walk(0)
+    return bad
+
+
 def judge_lines(text, res, pid):
     L = len(text)
     bad = []
@@ -847,6 +984,9 @@ def judge_lines(text, res, pid):
     return bad
 
 
+JUDGES = {"lines": judge_lines, "parse": judge_parse, "tokens": judge_tokens}
+
+
 def reach_prefix(p, depth, es):
     """a text of p bytes after which the real lexer is at a token start with the brace stack es[:depth]"""
     s = b""
@@ -879,9 +1019,9 @@ def replay_violation(nat, pid, v):
         text.decode("utf-8")
     except UnicodeDecodeError:
         return False, {"text_hex": text.hex(), "observed": "witness is not UTF-8 (encoding bug)"}
-    sub = "lines" if v["family"] == "lines" else "tokens"
+    sub = {"lines": "lines", "parse": "parse"}.get(v["family"], "tokens")
     res = native_run(nat, sub, text)
-    bad = judge_lines(text, res, pid) if sub == "lines" else judge_tokens(text, res, pid)
+    bad = JUDGES[sub](text, res, pid)
     detail = {"text_hex": text.hex(), "text": text.decode("utf-8"), "cmd": ["lex", sub, text.hex()], "kind": v["kind"], "harness": v.get("label"),
               "real": {k: x for k, x in res.items() if not k.startswith("_")}, "observed": "; ".join(bad) if bad else None}
     return bool(bad), detail
@@ -896,6 +1036,10 @@ EXTRA_TEXTS = [
     "é☕\U0001F600\"é☕\U0001F600\"'\U0001F600'//\U0001F600\n/*\U0001F600*/", "\r\n\r\t \x0b\x0c x\ry\nz\r\n", "_ _a a_ 9_ __ true false Self self", "\"\\", "\"a${", "}{}}\"${}}\"",
     "#?$`~\\\x00\x7f", "\"$x $ {${", "12abc 0xABCDEFg 0b102 1..2 1.a 1._",
 ]
+PARSE_TEXTS = ["fn main() { let x = 1; }\n", "fn foo() {\n  // comment\n  let x = 1 + 2;\n}\n", "class A { a: Int64, b: String }", "let a = [1i32];",
+               "fn f(a: Int64, b: T[X]): Y { if a { b } else { c }; while x { y = \"a${z}b\"; } }", "enum E { A, B(Int64) } impl E { fn g() {} }",
+               "use a::b::{c, d}; mod m; const X: Int64 = 0x1f; trait T { fn f(); }", "fn f() { match x { A => 1, B(y) => y, _ => 0 } }", "fn (", "}{)(", "fn f( { let = ; }",
+               "struct S(Int64, Bool) type A = B; extern fn p();", "@pub fn f[T: A + B](x: T) where T: C {}", "fn f() { x.y(1, 2)[3] as Z; a && b || !c; -1.5e3; 'c'; return; }"]
 EXTRA_LINE_TEXTS = ["", "\r", "\n", "\r\n", "a\r\n\U0001F600b\nçx\r", "\U0001F600\r\n", "x\r\r\n\ny", "\n\r", "ab"]
 
 
@@ -1021,6 +1165,35 @@ def validate_translator(par, lay, nat):
             if (got == "panic") != want.startswith("panic") or (got != "panic" and got != want.split(":")[-1]):
                 raise Inconclusive("encoding wrong: get_line_content(%r, %d): executor %s, real function %s" % (s, k, got, want))
             runs += 1
+    # parser entry: green tree (pre-order kinds and lengths) and the error list, executor vs real parser
+    itp = make_interp(par, lay, parser=True)
+    ptexts = [x for x in all_lex if len(x.encode("utf-8")) <= 40] + PARSE_TEXTS
+    reals = native_batch(nat, "parse", [x.encode("utf-8") for x in ptexts])
+    for s, real in zip(ptexts, reals):
+        tb = s.encode("utf-8")
+        ex = Explorer(max_steps=2000000)
+        ctx = Ctx(ex, ())
+        try:
+            p = itp.call(ctx, "Parser::from_string", [Slice([Int(b, "u8") for b in tb], "str")])
+            r = itp.call(ctx, "Parser::parse", [p])
+            st = "ok"
+        except Panic as e:
+            st, r = "panic", e.msg
+        runs += 1
+        if st == "panic" or "panic" in real or "hang" in real:
+            if (st == "panic") != ("panic" in real):
+                raise Inconclusive("encoding wrong: parse(%r): executor %s, real parser %s" % (s, r if st == "panic" else "returns", real))
+            continue
+        dump, toks, conds = [], [], []
+        green_walk(field(unbox(unbox(r.fields[0]).fields[0]), "root"), dump, toks, conds)
+        e_errs = []
+        for e in r.fields[1].elems:
+            variant, payload, a, b = error_parts(e)
+            nm = variant if payload is None else "%s:%d" % (variant, z3.simplify(payload).as_long())
+            e_errs.append("%s@%d+%d" % (nm, z3.simplify(a).as_long(), z3.simplify(b).as_long()))
+        if ",".join(dump) != real.get("tree") or ";".join(e_errs) != (real.get("errors") or ""):
+            raise Inconclusive("encoding wrong: parse(%r): executor tree %s errors %s, real parser tree %s errors %s" %
+                               (s, ",".join(dump), ";".join(e_errs), real.get("tree"), real.get("errors")))
     return runs, len(lex_texts), len(line_texts)
 
 
@@ -1028,10 +1201,14 @@ def validate_translator(par, lay, nat):
 # driver
 
 TIERS = {
-    # whole: text lengths explored by brute force; step: max text length of the step family (grown while time permits
-    # between min and max); skel_k: free bytes per skeleton; lines: text lengths of the line-table family
-    "quick": {"whole": 2, "step_min": 5, "step_max": 6, "skel_k": 2, "lines": 5, "budget_s": 150, "cap_s": 900, "second_every": 200},
-    "thorough": {"whole": 3, "step_min": 6, "step_max": 8, "skel_k": 3, "lines": 7, "budget_s": 1300, "cap_s": 2700, "second_every": 1000},
+    # whole / parse: text lengths explored by brute force (complete `lex`, complete `Parser::parse`); *_more: one more length when
+    # the time budget permits; step: max text length of the step family (grown between min and max while the budget permits);
+    # skel_k: free bytes per skeleton block; lines: text lengths of the line-table family; budget_s: exploration time the driver
+    # plans for (it stops growing bounds when the prediction exceeds it); cap_s: deadline of the run (inconclusive beyond)
+    "quick": {"whole": 2, "whole_more": 2, "parse": 2, "parse_more": 2, "step_min": 5, "step_max": 6, "skel_k": 2, "lines": 5,
+              "budget_s": 170, "cap_s": 900, "second_every": 200},
+    "thorough": {"whole": 2, "whole_more": 3, "parse": 2, "parse_more": 3, "step_min": 6, "step_max": 8, "skel_k": 3, "lines": 7,
+                 "budget_s": 1400, "cap_s": 2700, "second_every": 1000},
 }
 
 
@@ -1059,11 +1236,11 @@ def run(pid, tier):
 
 def run2(pid, tier, t0, par, lay, nat):
     cfg = dict(TIERS[tier])
-    cfg["whole"] = env_int("VERIF_LEX_WHOLE", cfg["whole"])
-    cfg["step_min"] = env_int("VERIF_LEX_STEP_MIN", cfg["step_min"])
-    cfg["step_max"] = max(cfg["step_min"], env_int("VERIF_LEX_STEP_MAX", cfg["step_max"]))
-    cfg["skel_k"] = env_int("VERIF_LEX_SKEL", cfg["skel_k"])
-    cfg["lines"] = env_int("VERIF_LEX_LINES", cfg["lines"])
+    for k, env in (("whole_more", "VERIF_LEX_WHOLE"), ("parse_more", "VERIF_LEX_PARSE"), ("step_min", "VERIF_LEX_STEP_MIN"), ("step_max", "VERIF_LEX_STEP_MAX"),
+                   ("skel_k", "VERIF_LEX_SKEL"), ("lines", "VERIF_LEX_LINES"), ("budget_s", "VERIF_LEX_BUDGET")):
+        cfg[k] = env_int(env, cfg[k])
+    cfg["whole"], cfg["parse"] = min(cfg["whole"], cfg["whole_more"]), min(cfg["parse"], cfg["parse_more"])
+    cfg["step_max"] = max(cfg["step_min"], cfg["step_max"])
     SECOND["every"] = cfg["second_every"]
     nval, n_lex_texts, n_line_texts = validate_translator(par, lay, nat)
     log("[%s] translator validated on %d concrete calls (%d + %d unit-test texts of lexer.rs / lib.rs) in %.1fs" %
@@ -1072,40 +1249,54 @@ def run2(pid, tier, t0, par, lay, nat):
     deadline = t0 + cfg["cap_s"]
     results = {}
 
-    def explore(bodies, depth):
+    def explore(bodies, depth, what):
         t = time.time()
         res = run_harnesses(bodies, depth=depth, query_timeout_ms=60000, deadline=deadline)
         results.update(res)
-        return time.time() - t, sum(o.paths for o, _ in res.values())
+        dt, n = time.time() - t, sum(o.paths for o, _ in res.values())
+        log("[%s] %s: %d paths in %.1fs" % (pid, what, n, dt))
+        return dt, n
 
-    # 1. line table, end of file, whole texts, skeletons (fixed bounds per tier)
+    def fits(predicted, what):
+        spent = time.time() - t_expl
+        if spent + predicted > cfg["budget_s"]:
+            log("[%s] %s not attempted: %.0fs spent, predicted %.0fs, budget %ds" % (pid, what, spent, predicted, cfg["budget_s"]))
+            return False
+        return True
+
+    reached = {"whole": cfg["whole"], "parse": cfg["parse"]}
+    # 1. line table, end of file, skeletons; whole texts and the parser on every text up to the base length
     bodies = {}
     for L in range(0, cfg["lines"] + 1):
         bodies["lines/L=%d" % L] = lines_body(par, lay, pid, L)
     for L in range(0, cfg["step_max"] + 1):
         bodies["eof/L=%d" % L] = eof_body(par, lay, pid, L)
-    for L in range(0, cfg["whole"] + 1):
-        bodies["whole/L=%d" % L] = whole_body(par, lay, pid, "whole", "whole/L=%d" % L, [None] * L)
     for nm, pat in SKELETONS:
         bodies["skel/%s" % nm] = whole_body(par, lay, pid, "skel", "skel/%s %r" % (nm, pat), skeleton_spec(pat, cfg["skel_k"]))
-    dt, np_ = explore(bodies, 9)
-    log("[%s] lines<=%d, whole<=%d, %d skeletons with %d free bytes: %d paths in %.1fs" % (pid, cfg["lines"], cfg["whole"], len(SKELETONS), cfg["skel_k"], np_, dt))
-    # 2. step family: lengths up to step_min in one go, then grow the text length while the time budget permits
+    explore(bodies, 9, "lines<=%d, eof, %d skeletons with %d free bytes" % (cfg["lines"], len(SKELETONS), cfg["skel_k"]))
+    dt_w, _ = explore({"whole/L=%d" % L: whole_body(par, lay, pid, "whole", "whole/L=%d" % L, [None] * L) for L in range(0, cfg["whole"] + 1)}, 9,
+                      "whole<=%d" % cfg["whole"])
+    dt_p, _ = explore({"parse/L=%d" % L: parse_body(par, lay, pid, L) for L in range(0, cfg["parse"] + 1)}, 9, "parse<=%d" % cfg["parse"])
+
+    # 2. step family up to step_min
     def step_bodies(lengths):
         return {"step/L=%d/p=%d" % (L, p): step_body(par, lay, pid, L, p) for L in lengths for p in range(L)}
-    last_dt, np_ = explore(step_bodies(range(1, cfg["step_min"] + 1)), 9)
-    reached = cfg["step_min"]
-    log("[%s] step L<=%d: %d paths in %.1fs" % (pid, reached, np_, last_dt))
+    last_dt, _ = explore(step_bodies(range(1, cfg["step_min"] + 1)), 9, "step L<=%d" % cfg["step_min"])
+    reached["step"] = cfg["step_min"]
     last_dt *= 0.72          # share of the longest length in a geometric series of ratio ~3.5
+    # 3. one more byte for the brute-force families (a byte in token-start position multiplies the paths by ~36)
+    for fam, dt0, mk in (("whole", dt_w, lambda L: whole_body(par, lay, pid, "whole", "whole/L=%d" % L, [None] * L)), ("parse", dt_p, lambda L: parse_body(par, lay, pid, L))):
+        for L in range(cfg[fam] + 1, cfg[fam + "_more"] + 1):
+            if not fits(dt0 * 38.0, "%s L=%d" % (fam, L)):
+                break
+            dt0, _ = explore({"%s/L=%d" % (fam, L): mk(L)}, 11, "%s L=%d" % (fam, L))
+            reached[fam] = L
+    # 4. grow the step family while the budget permits
     for L in range(cfg["step_min"] + 1, cfg["step_max"] + 1):
-        spent = time.time() - t_expl
-        predicted = last_dt * 3.6
-        if spent + predicted > cfg["budget_s"]:
-            log("[%s] step family stops at L=%d: %.0fs spent, next length predicted %.0fs, budget %ds" % (pid, reached, spent, predicted, cfg["budget_s"]))
+        if not fits(last_dt * 3.6, "step L=%d" % L):
             break
-        last_dt, np_ = explore(step_bodies([L]), 9)
-        reached = L
-        log("[%s] step L=%d: %d paths in %.1fs" % (pid, L, np_, last_dt))
+        last_dt, _ = explore(step_bodies([L]), 9, "step L=%d" % L)
+        reached["step"] = L
     return finish(pid, tier, t0, cfg, reached, results, nat, nval, n_lex_texts, n_line_texts)
 
 
@@ -1122,7 +1313,8 @@ OUTSIDE = [
 ]
 
 
-def finish(pid, tier, t0, cfg, reached, results, nat, nval, n_lex_texts, n_line_texts):
+def finish(pid, tier, t0, cfg, reach, results, nat, nval, n_lex_texts, n_line_texts):
+    reached = reach["step"]
     rep = common.Reporter(pid)
     obligations = discharged = paths = queries = checks = pruned = 0
     stime = 0.0
@@ -1181,7 +1373,7 @@ def finish(pid, tier, t0, cfg, reached, results, nat, nval, n_lex_texts, n_line_
             "error:UnknownChar", "multi-byte-character-inside-string", "multi-byte-character-2", "multi-byte-character-3", "multi-byte-character-4",
             "token:TEMPLATE_LITERAL", "token:TEMPLATE_END_LITERAL", "token:FLOAT_LITERAL", "token:MULTILINE_COMMENT", "token:LINE_COMMENT",
             "token:NEWLINE", "token:WHITESPACE", "token:GT_GT_GT_EQ", "brace-stack-touched", "brace-stack-depth-0-after", "brace-stack-depth-1-after",
-            "eof-checked", "text-with-crlf", "text-with-lone-cr", "text-with-lf", "line-column-roundtrip-checked", "offset-on-later-line",
+            "eof-checked", "parse-tree-checked", "parse-with-errors", "parse-without-errors", "node:ERROR_ELEM", "text-with-crlf", "text-with-lone-cr", "text-with-lf", "line-column-roundtrip-checked", "offset-on-later-line",
             "line-contents-checked"]
     if reached >= 5 or cfg["skel_k"] >= 3:
         need.append("astral-character-inside-string")
@@ -1194,8 +1386,10 @@ def finish(pid, tier, t0, cfg, reached, results, nat, nval, n_lex_texts, n_line_
             if not vac.get(k):
                 raise Inconclusive("vacuity witness missing: " + k)
     bounds = {
-        "whole_text_bytes": list(range(0, cfg["whole"] + 1)),
+        "whole_text_bytes": list(range(0, reach["whole"] + 1)),
         "whole_texts": "every well-formed UTF-8 byte string of these lengths (symbolic bytes), complete `lex`",
+        "parse_text_bytes": list(range(0, reach["parse"] + 1)),
+        "parse_texts": "every well-formed UTF-8 byte string of these lengths, complete `Parser::from_string(text).parse()` (lexer, parser, build_tree)",
         "step_text_bytes_reached": reached,
         "step_states": "every text of 1..%d bytes, every cursor position on a char boundary in front of the end, brace stack depth 0..%d within INV "
                        "(complete for these lengths: depth 3 needs a cursor >= 9)" % (reached, MAX_DEPTH),
@@ -1264,7 +1458,7 @@ def replay(pid, path):
         sub = r["cmd"][1]
         res = native_run(nat, sub, text)
         print(json.dumps(res, indent=1))
-        bad = judge_lines(text, res, pid) if sub == "lines" else judge_tokens(text, res, pid)
+        bad = JUDGES[sub](text, res, pid)
         print("replay: %s" % ("; ".join(bad) if bad else "the real functions satisfy the obligations of %s on this input" % pid))
         if bad:
             print("VIOLATION property=%s replay=%s" % (pid, path))
